@@ -200,6 +200,24 @@ def RM(origin, *parts):
     return LogicalType("M", ((origin,) if origin is not None else ()) + bases, {})
 
 
+def SETA(obj, x, item=False):
+    """attribute / item assignment of field a, then the stored value (a forced-error context: the assignment raises)"""
+    if item:
+        obj["a"] = x
+    else:
+        obj.a = x
+    return dict.__getitem__(obj, "a") if isinstance(obj, dict) else obj.__dict__["a"]
+
+
+def AFTER_USE(t, op, other):
+    """t, after it was used as the left and as the right operand of `op` (building a new type must not change an operand)"""
+    import operator
+    f = {"|": operator.or_, "^": operator.xor, "&": operator.and_}[op]
+    f(t, other)
+    f(other, t)
+    return t
+
+
 def RA(rule, **cons):
     """Rule.annotate(rule, constraints=...): further constraints declared on top of an existing rule class"""
     return Rule.annotate(rule, constraints=cons) if cons else rule
